@@ -5,7 +5,7 @@
 (* line - the cases the real helpers are then run on, with the model's expectation.        *)
 EXTENDS IoHelpers, TLC, Json, SequencesExt
 
-CONSTANTS Family,   \* "rte" | "rex" | "rts" | "rtsbig" | "wa" | "wf"
+CONSTANTS Family,   \* "rte" | "rte2" | "rex" | "rts" | "rtsbig" | "wa" | "wf"
           L         \* maximal script length (including the terminal item)
 
 C(k) == [t |-> "c", k |-> k]
@@ -33,6 +33,13 @@ ReadScripts == {p \o <<tm>> : p \in SeqsUpTo(NT, L - 1), tm \in {EOF_, ERR(5)}}
 Case(op, s, d, i, c0, n, p) == [op |-> op, script |-> s, data |-> d, init |-> i, cap0 |-> c0, n |-> n, pieces |-> p, ff |-> 0]
 
 RteCases == {Case("read_to_end", s, IdData(Total(s)), IdInit(lc[1]), lc[2], 0, <<>>) : s \in ReadScripts, lc \in Inits}
+\* a second grid: other chunk sizes (partial fills on both sides of 32/64/96) and other initial
+\* (len, capacity) pairs (capacity 1, 31, 33; exact fit at 64; one byte short of full)
+ChunkSizes2 == {3, 30, 34, 63, 65, 96}
+Inits2 == {<<0, 1>>, <<1, 1>>, <<0, 31>>, <<0, 33>>, <<64, 64>>, <<33, 64>>, <<63, 64>>}
+NT2 == {C(k) : k \in ChunkSizes2} \cup {EINTR}
+ReadScripts2 == {p \o <<tm>> : p \in SeqsUpTo(NT2, L - 1), tm \in {EOF_, ERR(5)}}
+Rte2Cases == {Case("read_to_end", s, IdData(Total(s)), IdInit(lc[1]), lc[2], 0, <<>>) : s \in ReadScripts2, lc \in Inits2}
 RexCases == {Case("read_exact", s, IdData(Total(s)), <<>>, 0, n, <<>>) : s \in ReadScripts, n \in {0, 1, 2, 32, 33, 65}}
 
 \* UTF-8: every way of cutting a short string into chunks (each boundary split or not), an
@@ -69,6 +76,7 @@ WfCases == {[Case("write_fmt", s, IdData(5), <<>>, 0, 0, p) EXCEPT !.ff = f] : s
                 p \in {<<2, 0, 3>>, <<1, 1, 1, 1, 1>>, <<5>>, <<0, 5, 0>>}, f \in {0, 1}}
 
 Cases == CASE Family = "rte" -> RteCases
+           [] Family = "rte2" -> Rte2Cases
            [] Family = "rex" -> RexCases
            [] Family = "rts" -> RtsCases
            [] Family = "rtsbig" -> BigCases
@@ -79,7 +87,7 @@ MCInit == \E c \in Cases : InitFor(c)
 
 \* one line per complete behaviour; byte contents are left out where the driver regenerates
 \* them with IdData / IdInit
-IdFamily == Family \in {"rte", "rex", "wa", "wf"}
+IdFamily == Family \in {"rte", "rte2", "rex", "wa", "wf"}
 Emit ==
     pc = "done" =>
         PrintT(<<"B", ToJson([op |-> case.op, script |-> case.script, cap0 |-> case.cap0, n |-> case.n,
